@@ -379,9 +379,10 @@ def annotated_po(p0: typing.Annotated[typing.Any, _vt.TagB] = 'd_p0', /,
 _SINGLE_DEFAULT = ['single-default']
 
 
-def mutdef1(a=_SINGLE_DEFAULT, c=(1, 2), other=None):
-  """One mutable default, not shared with any other parameter."""
-  return record('mutdef1', {'a': a, 'c': c, 'other': other})
+def mutdef1(a=_SINGLE_DEFAULT, c=(1, 2), other=None, a_done=None):
+  """One mutable default, not shared with any other parameter (a_done: a sibling whose name
+  starts with the name of the defaulted parameter)."""
+  return record('mutdef1', {'a': a, 'c': c, 'other': other, 'a_done': a_done})
 
 
 class Statics:
